@@ -117,13 +117,22 @@ func jsonForArray(l *an.Array) string {
 	`, name, id, elemID, id, name, elemID)
 }
 
+// isIntegerKey returns true for integers and named types over integers
+func isIntegerKey(key an.Type) bool {
+	if named, isNamed := key.(*an.Named); isNamed {
+		key = named.Underlying
+	}
+	basic, isBasic := key.(*an.Basic)
+	return isBasic && basic.Kind() == an.BKInt
+}
+
 func jsonForMap(ma *an.Map) string {
 	keyName, keyID := typeName(ma.Key), jsonID(ma.Key)
 
 	// JSON map keys are always string, but it is very convenient
 	// to support int keys (for IDs)
 	keyFromJson := "k as " + keyName
-	if keyName == "int" {
+	if isIntegerKey(ma.Key) { // also named integers (typedefs of int)
 		keyFromJson = "int.parse(k)"
 	}
 
